@@ -31,7 +31,7 @@ REQUIRED = {"all": ["salted_objects", "very_unequal_groups_with_many_outside", "
                     "invalid_groups_rejected", "nontrivial_two_group", "omega_sequence_checked", "objects_with_phosphosites", "string_groups_that_read_as_words"]}
 NSEQ = {"quick": 350, "thorough": 3500}
 HI = {"quick": 80, "thorough": 200}
-BAD_MEMBERS = ["B", "X", "Z", "J", "O", "U", "1", "0", "*", "-", " ", "", "DE", "KR", "ST", "ALA", "Ala", 3, None, 1.5,
+BAD_MEMBERS = ["D\n", "E\n", "\nK", "k\n", "D ", " D", "D\r\n", "D\t", "B", "X", "Z", "J", "O", "U", "1", "0", "*", "-", " ", "", "DE", "KR", "ST", "ALA", "Ala", 3, None, 1.5,
                "Å", "Е", "e ", "+"]
 
 
